@@ -24,7 +24,8 @@ func init() {
 			"(validate-before-merge) the receiver merges a fragment only after validateFragmentPack returned nil, whose success returns all lie behind the partition-id bound and the ownership check; " +
 			"(merge-keeps-newer) shared with C06; " +
 			"(previous-owners-walked) reads and deletes walk owners[0..len-2] of the unmodified primary owners list; " +
-			"(import-error-propagates, single-live-version) shared with C11: a failed merge is reported to the sender, a migrated store holds one live version per key.",
+			"(import-error-propagates, single-live-version) shared with C11: a failed merge is reported to the sender, a migrated store holds one live version per key; " +
+			"(insert-into-writable-head) shared with C11, C12, C20: a store whose tables were moved away puts its recycled table back into service before it accepts a write, so the entries remain exportable.",
 		Run: func(r *core.Run) {
 			c03DropAfterAck(r)
 			c03MoveAtomic(r)
@@ -37,6 +38,7 @@ func init() {
 			c17Pack(r)
 			c10Idle(r)
 			fragmentStatsTruthful(r)
+			kvInsertIntoWritableHead(r)
 		},
 	})
 }
